@@ -28,7 +28,7 @@ int vprop_fork = 1;
 int vprop_cpu_limit_s = 120;
 const char *vprop_class_names[V_NCLASS] = {
   "threads_ge_4", "threads_ge_8", "threads_16", "concurrent_compiles", "shared_function_runs", "once_wrappers_contended", "take_code_path",
-  "yields", NULL
+  "yields", "(unused)", "c99_once_wrappers_contended", NULL
 };
 
 void vprop_init (int argc, char **argv) { (void) argc; (void) argv; /* orc_init is raced by the threads of every case */ }
@@ -122,8 +122,26 @@ static void run_code (OrcCode *c, Thr *t)
   run_code (c, t); \
 }
 WRAPPER (0, 0) WRAPPER (1, 3) WRAPPER (2, 4) WRAPPER (3, 5)
-static void (*wrappers[4]) (Thr *) = { wrapper_0, wrapper_1, wrapper_2, wrapper_3 };
-static const int wrapper_kernel[4] = { 0, 3, 4, 5 };
+static const int wrapper_kernel[8] = { 0, 3, 4, 5, 1, 2, 3, 5 };
+/* wrappers 4..7: the same thing compiled as C99 (props/c08_once99.c), where orconce.h uses its __sync implementation */
+OrcCode *c08_once99_get (int k, OrcCode *(*build) (int k), int *inits);
+static int once99_inits[4];
+static OrcCode *build99 (int k)
+{
+  OrcProgram *p = kbuild (wrapper_kernel[4 + k]);
+  OrcCode *c;
+  orc_program_compile (p);
+  c = orc_program_take_code (p);
+  orc_program_free (p);
+  return c;
+}
+#define WRAPPER99(K) static void wrapper_##K (Thr *t) { \
+  OrcCode *c = c08_once99_get (K - 4, build99, once99_inits); \
+  if (!c) { snprintf (t->fail, sizeof t->fail, "wrapper %d: orc_once_enter returned a NULL code pointer", K); return; } \
+  run_code (c, t); \
+}
+WRAPPER99 (4) WRAPPER99 (5) WRAPPER99 (6) WRAPPER99 (7)
+static void (*wrappers[8]) (Thr *) = { wrapper_0, wrapper_1, wrapper_2, wrapper_3, wrapper_4, wrapper_5, wrapper_6, wrapper_7 };
 
 /* ---- functions compiled once and then run by everybody ---- */
 static OrcCode *shared_code[2];
@@ -182,7 +200,7 @@ static void *worker (void *arg)
         break;
       }
       case 3: case 4: {                 /* once-guarded wrapper */
-        int w = (int) (o->arg % 4);
+        int w = (int) (o->arg % 8);
         wrappers[w] (t);
         if (!t->fail[0]) check (t, wrapper_kernel[w], "once-guarded wrapper");
         break;
@@ -211,7 +229,7 @@ static double cpu_seconds (void)
 void vprop_case (VChoices *c, VResult *r)
 {
   pthread_t th[16];
-  int nt, i, k, used_wrapper[4] = { 0, 0, 0, 0 }, wrapper_threads[4] = { 0, 0, 0, 0 }, compiles = 0, shared = 0, takes = 0, yields = 0;
+  int nt, i, k, used_wrapper[8] = { 0, 0, 0, 0, 0, 0, 0, 0 }, wrapper_threads[8] = { 0, 0, 0, 0, 0, 0, 0, 0 }, compiles = 0, shared = 0, takes = 0, yields = 0;
   uint32_t sel = vc_pick (c, 8);
   nt = sel < 3 ? 2 + (int) vc_pick (c, 3) : sel < 6 ? 4 + (int) vc_pick (c, 5) : 8 + (int) vc_pick (c, 9);
   if (nt > 16) nt = 16;
@@ -219,7 +237,7 @@ void vprop_case (VChoices *c, VResult *r)
   v_desc (r, "# C08 %d threads\n", nt);
   for (i = 0; i < nt; i++) {
     Thr *t = &thr[i];
-    int seenw[4] = { 0, 0, 0, 0 };
+    int seenw[8] = { 0, 0, 0, 0, 0, 0, 0, 0 };
     t->id = i;
     t->nops = 3 + (int) vc_pick (c, 12);
     t->skip_init = vc_pick (c, 3) == 0;
@@ -231,7 +249,7 @@ void vprop_case (VChoices *c, VResult *r)
       if (t->ops[k].yield) yields++;
       if (t->ops[k].op <= 1) { compiles++; if ((t->ops[k].arg / 18) % 2) takes++; }
       if (t->ops[k].op == 2) shared++;
-      if (t->ops[k].op == 3 || t->ops[k].op == 4) { used_wrapper[t->ops[k].arg % 4] = 1; if (!seenw[t->ops[k].arg % 4]) { seenw[t->ops[k].arg % 4] = 1; wrapper_threads[t->ops[k].arg % 4]++; } }
+      if (t->ops[k].op == 3 || t->ops[k].op == 4) { used_wrapper[t->ops[k].arg % 8] = 1; if (!seenw[t->ops[k].arg % 8]) { seenw[t->ops[k].arg % 8] = 1; wrapper_threads[t->ops[k].arg % 8]++; } }
       v_desc (r, " %s(%u)%s", t->ops[k].op <= 1 ? "compile" : t->ops[k].op == 2 ? "shared" : t->ops[k].op <= 4 ? "wrapper" : "init", t->ops[k].arg, t->ops[k].yield ? "~" : "");
     }
     v_desc (r, "\n");
@@ -269,9 +287,9 @@ void vprop_case (VChoices *c, VResult *r)
   for (i = 0; i < nt; i++) pthread_join (th[i], NULL);
   v_stage (r, "joined");
   for (i = 0; i < nt && r->verdict != V_FAIL; i++) if (thr[i].fail[0]) v_fail (r, "thread:wrong-result", "thread %d: %s", i, thr[i].fail);
-  for (k = 0; k < 4 && r->verdict != V_FAIL; k++) {
-    int n = atomic_load (&once_inits[k]);
-    if (used_wrapper[k] && n != 1) v_fail (r, "once:not-exactly-once", "the initialisation block of once-guarded wrapper %d ran %d times (called from %d threads)", k, n, wrapper_threads[k]);
+  for (k = 0; k < 8 && r->verdict != V_FAIL; k++) {
+    int n = k < 4 ? atomic_load (&once_inits[k]) : __atomic_load_n (&once99_inits[k - 4], __ATOMIC_SEQ_CST);
+    if (used_wrapper[k] && n != 1) v_fail (r, "once:not-exactly-once", "the initialisation block of once-guarded wrapper %d%s ran %d times (called from %d threads)", k, k >= 4 ? " (compiled as C99: __sync implementation of OrcOnce)" : "", n, wrapper_threads[k]);
     if (!used_wrapper[k] && n != 0) v_fail (r, "once:spurious", "wrapper %d was never called but initialised %d times", k, n);
   }
   if (nt >= 4) r->classes |= 1u << 0;
@@ -279,7 +297,8 @@ void vprop_case (VChoices *c, VResult *r)
   if (nt == 16) r->classes |= 1u << 2;
   if (compiles >= 2) r->classes |= 1u << 3;
   if (shared >= 2) r->classes |= 1u << 4;
-  for (k = 0; k < 4; k++) if (wrapper_threads[k] >= 2) r->classes |= 1u << 5;
+  for (k = 0; k < 8; k++) if (wrapper_threads[k] >= 2) r->classes |= 1u << 5;
+  for (k = 4; k < 8; k++) if (wrapper_threads[k] >= 2) r->classes |= 1u << 9;
   if (takes) r->classes |= 1u << 6;
   if (yields) r->classes |= 1u << 7;
   r->nontrivial = compiles >= 2 || (r->classes & (1u << 5)) || shared >= 2;
